@@ -5,22 +5,30 @@ props=[json.loads(l) for l in open('/verif/properties.jsonl')]
 claimed={
  "C01":("orchestrator step refinement: one symbolic command from an arbitrary valid two-tier state through the real DefaultServer.Loop and the real orcas (9 configurations) against the single-map reference; induction over histories","§C01","symbolic execution of go/ssa + SMT (Z3), inductive step from arbitrary valid state"),
  "C02":("same harness: representation invariant (L1 subset of L2, not outliving it) re-established by every command from every invariant-satisfying state, replies independent of L1 contents","§C02","symbolic execution + SMT, inductive invariant"),
+ "C04":("real chunked.Handler over an in-process memcached model: one symbolic command from an arbitrary well-formed backend state, result / returned bytes / complete backend post-state / set of backend keys touched compared with the reference map; derived-key injectivity for symbolic client keys","§C04","symbolic execution of the real handler + SMT, inductive step from arbitrary well-formed backend state"),
+ "C05":("real chunked get / get-and-touch / append over the memcached model with every subset of a value's backend entries lost: result is the full value or a miss","§C05","symbolic execution + SMT, lost-entry subsets as environment choices"),
  "C07":("binary and text parsers decode pipelines of symbolic requests produced by independent encoders, at every read boundary; first-byte disambiguation over all 256 bytes","§C07","symbolic execution of the real parsers + SMT, differential against independent encoders"),
+ "C08":("pipelines of requests as bytes through the real parsers, DefaultServer.Loop, the real orcas (9 configurations incl. locking wrappers) and the real responders; replies decoded by independent strict decoders: one complete frame per non-quiet request, opaque echo / request order, one value per hit, one terminator per get, connection in sync after error replies","§C08","symbolic execution of parser+loop+orca+responder + SMT, differential against independent strict decoders"),
  "C09":("orchestrator step with deadlines as first-class symbolic state and full 32-bit symbolic TTLs","§C09","symbolic execution + SMT over 32-bit TTL arithmetic"),
  "C11":("whole binary header space (2^8 opcodes x 2^16 key x 2^8 extras x 2^32 total) through the real parser and server loop with an allocation log; arbitrary text command lines","§C11","symbolic execution + SMT, allocation-size assertions before concretisation"),
  "C12":("LockedOrca over fault-injecting model handlers: fault position/kind symbolic choices, lock discipline observed through instrumented lockers; sequential part","§C12","symbolic execution + SMT with enumerated fault positions"),
  "C16":("chunk arithmetic kernels with symbolic lengths: sizes for all key lengths, FP chunk count per key length, slice indices, reader step induction, metadata of the real set path on an abstract-length value","§C16","symbolic execution + SMT incl. floating-point theory"),
+ "C17":("real inmem.Handler vs reference map: one symbolic command from every 2-key map state; 2 goroutines x 1 command under every interleaving at lock granularity with a lock-discipline monitor on the shared map","§C17","symbolic execution + SMT; exhaustive schedule exploration (bounded) with lock-discipline monitor"),
  "C18":("bit-count routine (amd64 assembly translated, portable body) equals its specification on all 2^64 inputs; bucket index in range, upper bound and monotone for all n <= 2^63-1","§C18","SSA and assembly translated to SMT bit-vectors, Z3"),
  "C19":("ring lookup for every 32-bit location on enumerated label sets: specification, order independence, single-removal stability","§C19","symbolic execution + SMT, one path per ring interval"),
 }
 notes={
  "C01":"model handlers stand for the backends (wire level and real std/chunked handlers: C04/C08/C10 harnesses); bounds: 2 keys, values <= 2 bytes, gets <= 2 keys, clock frozen within a command",
  "C02":"as C01; eviction invisibility follows from the pre-state ranging over every L1 subset of L2",
+ "C04":"key lengths 5 (quick), 1 and 250 (thorough); value lengths {0,1,2,p-1,p,p+1,2p,2p+1} (+3p thorough); long values symbolic at the chunk borders only; one known finding (surplus chunks of an overwritten longer value survive delete)",
+ "C05":"1..3 chunks quick, 1..6 thorough; interleaved concurrent writers are not part of the check yet",
  "C07":"lengths concrete per run (listed in evidence), contents symbolic; > 2 requests per pipeline and > 1 cut (quick) outside the bound",
- "C09":"orchestrator level with model handlers; chunked/batched handler TTL handling is not yet part of this check",
+ "C08":"model handlers stand for the backends; pipelines of 2; 2 keys; values <= 2 bytes; text flags <= 9 in quick; stats excluded",
+ "C09":"orchestrator level with model handlers, plus the real chunked handler over the memcached model (deadline of every backend entry and the metadata Exptime field); batched handler TTL (gete) not yet part of this check",
  "C11":"consistent frames bounded to 23 body bytes, contradictory frames all covered; text lines of 6 (quick) / 9 (thorough) ASCII bytes",
  "C12":"sequential fault positions 0..1 (quick) / 0..3 (thorough); concurrent deadlock-freedom belongs to the schedule exploration of C03",
  "C16":"FP detour decided for key lengths {1,5,100,250} (quick) + {2,16,50,150,200,249} (thorough); reader step buffer length <= 8",
+ "C17":"TTLs up to 30 days; 2 goroutines x 1 command; boundary second exptime == now left out",
  "C18":"counters and histogram percentiles are not yet part of this check (kernels only)",
  "C19":"label sets enumerated: sizes 1,2,3,4,8 (quick), 3,5,16,32 (thorough); MD5 trusted; key->location hashing covered by quantifying over all locations",
 }
